@@ -8,6 +8,7 @@ use ant_protocol::storage::try_serialize_record;
 use bytes::Bytes;
 use libp2p::kad::{Record, RecordKey};
 use std::cell::RefCell;
+use libp2p::PeerId;
 use symrt::env::block_on;
 use symrt::{assume, check, check_bool, choice, cover, note, SymU};
 
@@ -100,18 +101,37 @@ fn c15_vault() {
     } else if split {
         let (fb, vb) = (choice(2) == 1, choice(2) == 1);
         let pb = mk(b"version-b", cb, fb, vb);
-        let mut result_map = std::collections::HashMap::new();
-        result_map.insert(XorName::from_content(&rec(&pa).value), (rec(&pa), std::collections::HashSet::from([peer(1)])));
-        result_map.insert(XorName::from_content(&rec(&pb).value), (rec(&pb), std::collections::HashSet::from([peer(2)])));
+        let mut entries: Vec<(Record, PeerId)> = vec![(rec(&pa), peer(1)), (rec(&pb), peer(2))];
         all_versions.push((!fb && vb, cb, b"version-b".to_vec()));
         // thorough tier: a third version with its own unrelated counter
         if std::env::var("C15_VERSIONS").ok().as_deref() == Some("3") {
             let cc = Counter(SymU::fresh("counter_c"));
             let (fc, vc) = (choice(2) == 1, choice(2) == 1);
             let pc = mk(b"version-c", cc, fc, vc);
-            result_map.insert(XorName::from_content(&rec(&pc).value), (rec(&pc), std::collections::HashSet::from([peer(3)])));
+            entries.push((rec(&pc), peer(3)));
             all_versions.push((!fc && vc, cc, b"version-c".to_vec()));
         }
+        // the reply's map is a std HashMap with a random hasher state: its iteration order is outside anybody's
+        // control, so every order is explored (a choice), and the map is rebuilt until it iterates in the chosen
+        // order (which also makes re-execution of this path deterministic)
+        let n = entries.len();
+        let mut perms: Vec<Vec<usize>> = vec![vec![]];
+        for i in 0..n {
+            perms = perms.into_iter().flat_map(|p| (0..=p.len()).map(move |pos| { let mut q = p.clone(); q.insert(pos, i); q })).collect();
+        }
+        let want = perms[choice(perms.len())].clone();
+        let mut result_map = std::collections::HashMap::new();
+        for _attempt in 0..10_000 {
+            result_map = std::collections::HashMap::new();
+            for (r, p) in &entries {
+                result_map.insert(XorName::from_content(&r.value), (r.clone(), std::collections::HashSet::from([*p])));
+            }
+            let order: Vec<usize> = result_map.values().map(|(r, _)| entries.iter().position(|(e, _)| e.value == r.value).unwrap()).collect();
+            if order == want {
+                break;
+            }
+        }
+        note(format!("versions are iterated in the order {:?} (0 = a, 1 = b, 2 = c)", want));
         (Err(NetworkError::GetRecordError(GetRecordError::SplitRecord { result_map })), Some((fb, vb)))
     } else {
         (Ok(rec(&pa)), None)
